@@ -16,6 +16,10 @@ type DB struct {
 func Open(filename string) (*DB, error) {
 	db, err := sdb.OpenFile(filename)
 	if err != nil {
+		if db != nil {
+			// OpenFile hands back the handle it made, with the file open
+			db.Close()
+		}
 		return nil, err
 	}
 	return &DB{
